@@ -140,6 +140,13 @@ func (e *Env) Eval(x SExpr) Val {
 			return Val{T: untypedNil, S: "0"}
 		}
 	case *SIdent:
+		// a captured variable of a closure is a heap cell: its value is the one of the state the
+		// expression is evaluated in (old(x) is the value on entry, x the current one)
+		if cell, ok := e.x.topVars["&"+n.Name]; ok && e.cur != nil {
+			if p, ok := under(cell.T).(*types.Pointer); ok {
+				return e.x.heap.load(e.cur, cell, p.Elem())
+			}
+		}
 		if v, ok := e.vars[n.Name]; ok {
 			return v
 		}
